@@ -39,6 +39,7 @@ type session struct {
 	WantAst bool     `json:"wantast"` // include the parser's tree
 	Budget  int      `json:"budget"`  // VM instructions per item
 	WantBC  bool     `json:"wantbc"`  // include the decoded code and data segments and the entry of every item
+	Pregrow int      `json:"pregrow"` // grow the main operand stack to this many slots before the first item (it never reallocates afterwards)
 }
 
 type budgetExceeded struct{ what string }
@@ -111,6 +112,12 @@ func (r *runner) runSession(s session) M {
 	cr := compresult.Type{CS: &cs, DS: &ds, Dbg: &dbg}
 	builtin.Load(cr)
 	virtM := vm.New(m, cr)
+	if s.Pregrow > 0 {
+		for i := 0; i < s.Pregrow; i++ {
+			m.Push(value.Nil)
+		}
+		m.ResetSP()
+	}
 
 	r.inFile.Truncate(0)
 	r.inFile.Seek(0, 0)
